@@ -63,6 +63,11 @@ CLAUSES = {
     "substitution in the 8 checksum characters is detected": "proved (construct_checksum_mismatch_rejected, construct_checksum_accept)",
     "N16a (replacing the # separator)": "not an alteration of body or checksum: the regex drops the checksum group and the unaltered "
         "body parses to the same descriptor; predicate `substitution` checks exactly that at the # position",
+    "descriptor shows only xpub / tpub keys (SLIP-132 prefixes coalesced)": "proved (descriptor_keys_plain_version) for the "
+        "constructor; the coordinator flow key-record text → parse_any_key_record → constructor is compared with the model "
+        "(new_via_parser) and with an expectation computed without the library (own Base58Check, Core's checksum transcribed in "
+        "the harness): plain versions, order by the plain strings, checksum over exactly that text, equal to the hand-built-dict "
+        "path and to a checksum-less parse",
     "get_address = P2WSH of m <sorted child keys> n CHECKMULTISIG": "proved (get_address_eq_p2wsh, p2wsh_script_bytes)",
     "get_address independent of key-record order": "proved (get_address_perm_invariant, sort_keys_perm)",
     "receive and change use different child indices": "proved (change_index_ne_receive, change_index_eq_succ)",
@@ -131,6 +136,11 @@ def _impl(t):
         return dump(DS.P2WSHSortedMulti.parse(uns(t[1])))
     if op == "parse_addr":
         return xs(DS.P2WSHSortedMulti.parse(uns(t[1])).get_address(offset=int(t[2]), is_change=(t[3] == "1")))
+    if op == "new_via_parser":
+        k = int(t[2])
+        texts = [uns(x) for x in t[3:3 + k]]
+        krs = [DS.parse_any_key_record(x) for x in texts]
+        return dump(DS.P2WSHSortedMulti(int(t[1]), krs, sort_key_records=(t[3 + k] == "1")))
     if op in ("match_desc", "match_kr"):
         import re
         pats = _regexes()
@@ -310,7 +320,84 @@ def p_substitution(c):
     return not bad, bad, "every substitution refused"
 
 
-PREDICATES = {"roundtrip": p_roundtrip, "perm": p_perm, "address": p_address, "recv_change": p_recv_change,
+# ---- independent of the library: Base58Check and Bitcoin Core's descriptor checksum, written out here
+_B58 = "123456789ABCDEFGHJKLMNPQRSTUVWXYZabcdefghijkmnopqrstuvwxyz"
+
+
+def _b58check_decode(s):
+    import hashlib
+    n = 0
+    for ch in s:
+        n = n * 58 + _B58.index(ch)
+    pad = len(s) - len(s.lstrip("1"))
+    raw = b"\x00" * pad + n.to_bytes((n.bit_length() + 7) // 8, "big")
+    if hashlib.sha256(hashlib.sha256(raw[:-4]).digest()).digest()[:4] != raw[-4:]:
+        raise ValueError("checksum")
+    return raw[:-4]
+
+
+def _b58check_encode(raw):
+    import hashlib
+    raw = raw + hashlib.sha256(hashlib.sha256(raw).digest()).digest()[:4]
+    n, out = int.from_bytes(raw, "big"), ""
+    while n:
+        n, r = divmod(n, 58)
+        out = _B58[r] + out
+    return "1" * (len(raw) - len(raw.lstrip(b"\x00"))) + out
+
+
+def _core_checksum(text):
+    """Bitcoin Core src/script/descriptor.cpp DescriptorChecksum, transcribed"""
+    inp = "0123456789()[],'/*abcdefgh@:$%{}IJKLMNOPQRSTUVWXYZ&+-.;<=>?!^_|~ijklmnopqrstuvwxyzABCDEFGH`#\"\\ "
+    out = "qpzry9x8gf2tvdw0s3jn54khce6mua7l"
+
+    def polymod(c, val):
+        c0 = c >> 35
+        c = ((c & 0x7FFFFFFFF) << 5) ^ val
+        for bit, g in ((1, 0xF5DEE51989), (2, 0xA9FDCA3312), (4, 0x1BAB10E32D), (8, 0x3706B1677A), (16, 0x644D626FFD)):
+            if c0 & bit:
+                c ^= g
+        return c
+    c, cls, cnt = 1, 0, 0
+    for ch in text:
+        pos = inp.index(ch)
+        c = polymod(c, pos & 31)
+        cls = cls * 3 + (pos >> 5)
+        cnt += 1
+        if cnt == 3:
+            c, cls, cnt = polymod(c, cls), 0, 0
+    if cnt:
+        c = polymod(c, cls)
+    for _ in range(8):
+        c = polymod(c, 0)
+    c ^= 1
+    return "".join(out[(c >> (5 * (7 - j))) & 31] for j in range(8))
+
+
+def p_plain_versions(c):
+    """coordinator flow: key-record texts → parse_any_key_record → constructor.  Whatever SLIP-132 prefix the cosigners'
+    keys carry, the descriptor must show only xpub / tpub keys, ordered by those strings, with Core's checksum over exactly
+    that text — computed here without the library; the hand-built-dict path and a checksum-less parse must agree"""
+    import buidl.descriptor as DS
+    plain = {True: bytes.fromhex("0488b21e"), False: bytes.fromhex("043587cf")}
+    recs = []
+    for r in c["records"]:
+        raw = _b58check_decode(r["xpub"])
+        recs.append((_b58check_encode(plain[c["net"] == "mainnet"] + raw[4:]), r))
+    if c["sort"]:
+        recs.sort(key=lambda x: x[0])
+    body = f"wsh(sortedmulti({c['m']}" + "".join(f",[{r['xfp']}{r['path'][1:]}]{x}/{r['acct']}/*" for x, r in recs) + "))"
+    want = body + "#" + _core_checksum(body)
+    texts = [f"[{r['xfp']}{r['path'][1:]}]{r['xpub']}/{r['acct']}/*" for r in c["records"]]
+    via_parser = DS.P2WSHSortedMulti(c["m"], [DS.parse_any_key_record(t) for t in texts], sort_key_records=c["sort"])
+    hand = DS.P2WSHSortedMulti(c["m"], [{"xfp": r["xfp"], "path": r["path"], "xpub_parent": r["xpub"], "account_index": r["acct"]}
+                                        for r in c["records"]], sort_key_records=c["sort"])
+    reparsed = DS.P2WSHSortedMulti.parse(body)
+    got = [str(via_parser), str(hand), str(reparsed)]
+    return got == [want, want, want], got, want
+
+
+PREDICATES = {"plain_versions": p_plain_versions, "roundtrip": p_roundtrip, "perm": p_perm, "address": p_address, "recv_change": p_recv_change,
               "substitution": p_substitution}
 
 
@@ -509,6 +596,22 @@ def run(ctx):
         lines.append(("p2wsh", f"p2wsh {m} {n} {' '.join(xb(k) for k in keys)} {xs(rng.choice(['mainnet', 'testnet', 'signet', 'regtest']))}"))
     lines.append(("p2wsh", f"p2wsh 17 1 {xb(bytes(33))} {xs('mainnet')}"))
     lines.append(("p2wsh", f"p2wsh 1 1 {xb(bytes(33))} {xs('nonet')}"))
+
+    # ---- the coordinator flow: key-record TEXTS through the library's own parsers, then the constructor; cosigner keys in
+    # every SLIP-132 prefix the library knows, mixed with plain ones, on both networks
+    for k in range(ctx.n(12, 60)):
+        net = ["mainnet", "testnet"][k % 2]
+        n = rng.randrange(1, 5)
+        m = rng.randrange(1, n + 1)
+        cos = rng.sample(by_net[net], min(n, len(by_net[net])))
+        recs = []
+        for j, (xfp, path, xpubs) in enumerate(cos):
+            vi = (k + j) % 5 if k < 10 else rng.randrange(5)
+            recs.append({"xfp": xfp, "path": path, "xpub": xpubs[vi], "acct": rng.choice([0, 0, 1, 5])})
+        srt = k % 4 != 3
+        texts = [f"[{r['xfp']}{r['path'][1:]}]{r['xpub']}/{r['acct']}/*" for r in recs]
+        lines.append(("new_via_parser", f"new_via_parser {m} {len(texts)} {' '.join(xs(t) for t in texts)} {1 if srt else 0}"))
+        preds.append(("plain_versions", {"m": m, "net": net, "records": recs, "sort": srt}))
 
     # ---- object-reuse histories: one descriptor object, many (branch, index) queries in varying order and twice each,
     # its key_records mutated between calls; the model answers each step from the current attributes
